@@ -58,8 +58,8 @@ func TestVP_C21_known_F5(t *testing.T) {
 }
 
 func TestVP_C21_consensus_marker(t *testing.T) {
-	c := kit.New(t, "C21", "rapid: the C22 workloads, each containing >= 1 consensus-class snapshots (custodian updates, node pledge, node accept as round 0 of the new chain, node removal; all on the chain the kernel's rules assign) interleaved with ordinary snapshots of other chains; cuts are drawn at or after the first consensus snapshot's write (every boundary in thorough; quick aims 7 of 10 cuts per workload at the marker windows [WriteSnapshot..WriteConsensusSnapshot] of the consensus steps), plain or with another chain finalizing at the boundary first, and the workload continues after restart; oracle: after restart ReadLastConsensusSnapshot is the latest consensus snapshot whose write returned before the cut, or a later one; the interleaving class of known finding C21-F5 (nested cuts strictly inside a marker window) and the cuts of known finding C22-F8 (restart impossible) are excluded by construction and counted; non-trivial = cut after a consensus-class snapshot write; distinct by (workload, cut)")
-	c.Require("after-consensus-write", "nested", "cut-WriteConsensusSnapshot", "cut-WriteSnapshot", "after-pledge-write", "after-accept-write", "cut-in-accept-path", "cut-in-pledge-path")
+	c := kit.New(t, "C21", "rapid: the C22 workloads, each containing >= 1 consensus-class snapshots (custodian updates, node pledge, node accept as round 0 of the new chain, node removal; all on the chain the kernel's rules assign) interleaved with ordinary snapshots of other chains; cuts are drawn at or after the first consensus snapshot's write (every boundary in thorough; quick aims 7 of 10 cuts per workload at the marker windows [WriteSnapshot..WriteConsensusSnapshot] of the consensus steps), plain or with another chain finalizing a snapshot at the boundary before the cut call (stop there, or after that call returned; at a WriteSnapshot boundary only when the topology lock is found free there, which the harness probes with TryLock), and the workload continues after restart; oracle: after restart ReadLastConsensusSnapshot is the latest consensus snapshot whose write returned before the cut, or a later one; the interleaving class of known finding C21-F5 (nested cuts strictly inside a marker window) and the cuts of known finding C22-F8 (restart impossible) are excluded by construction and counted; non-trivial = cut after a consensus-class snapshot write; distinct by (workload, cut)")
+	c.Require("after-consensus-write", "nested", "nested-then-cut-after", "snapshot-write-holds-topology-lock", "cut-WriteConsensusSnapshot", "cut-WriteSnapshot", "after-pledge-write", "after-accept-write", "cut-in-accept-path", "cut-in-pledge-path")
 	perWorkload, aimed := 10, 7
 	kit.SetChecks(kit.N(10, 60))
 	if kit.Thorough() {
@@ -109,8 +109,12 @@ func TestVP_C21_consensus_marker(t *testing.T) {
 						cut.Phase = "after"
 					}
 				}
-				if cut.Phase == "before" {
-					cut.Nested = rapid.IntRange(0, 1).Draw(t, "nested") == 0
+				cut.Nested = rapid.IntRange(0, 1).Draw(t, "nested") == 0
+				if i < aimed && i%3 == 0 {
+					// another chain finalizing while the consensus snapshot is being
+					// written (possible only if the topology lock is free there),
+					// then the stop right after that write
+					cut.K, cut.Phase, cut.Nested = windows[len(windows)-1-i%len(windows)][0], "after", true
 				}
 				cuts = append(cuts, cut)
 			}
@@ -151,6 +155,19 @@ func TestVP_C21_consensus_marker(t *testing.T) {
 					cl = append(cl, x)
 				}
 			}
+			if cut.Nested && cut.Phase == "after" {
+				cl = append(cl, "nested-then-cut-after")
+				if out.NestedRan {
+					cl = append(cl, "nested-ran-then-cut-after")
+				}
+			}
+			if cut.Nested && plan.Log[cut.K-1] == "WriteSnapshot" {
+				if out.NestedRan {
+					cl = append(cl, "other-chain-finalized-during-snapshot-write")
+				} else {
+					cl = append(cl, "snapshot-write-holds-topology-lock")
+				}
+			}
 			c.Case(fmt.Sprint(vpCWDescribe(steps), *cut), nt, cl...)
 			c.Sample(map[string]any{"workload": vpCWDescribe(steps), "cut": fmt.Sprintf("%+v", *cut), "crash_at": out.CrashAt, "consensus_written_before": out.ConsBefore})
 		}
@@ -168,9 +185,9 @@ func TestVP_C21_consensus_marker(t *testing.T) {
 // the last snapshot or not; a foreign snapshot written between the mint's
 // TopoWrite and its marker is the known finding C21-F5 and is not generated.
 func TestVP_C21_mint_marker(t *testing.T) {
-	c := kit.New(t, "C21", "rapid: 1..3 universal mint snapshots (batches increasing by 1..3, each referencing the recorded last consensus operation) finalized on drawn genesis chains through lock+persist, TopoWrite and reloadConsensusState, interleaved with ordinary deposit snapshots of other chains delivered through the finalization path; the process is cut after a drawn mint's TopoWrite (before its marker write) or after the marker write, optionally restarted in between mints; oracle: after every restart ReadLastConsensusSnapshot is the latest mint whose TopoWrite returned (or later) and node.LastMint is its batch; non-trivial = cut between TopoWrite and the marker write; distinct by (mint count, cut position, interleaving)")
-	c.Require("cut-before-marker", "cut-after-marker", "second-mint", "ordinary-before-mint")
-	kit.SetChecks(kit.N(12, 400))
+	c := kit.New(t, "C21", "rapid: 1..3 universal mint snapshots (batches increasing by 1..3, each referencing the recorded last consensus operation) finalized on drawn genesis chains through lock+persist, TopoWrite and reloadConsensusState, interleaved with ordinary deposit snapshots of other chains delivered through the finalization path; the process is cut after a drawn mint's TopoWrite (before its marker write; in half of these the same mint transaction is first finalized once more by a snapshot of another chain, so that the last stored snapshot is the duplicate) or after the marker write, optionally restarted in between mints; oracle: after every restart ReadLastConsensusSnapshot is the latest mint whose TopoWrite returned (or later) and node.LastMint is its batch; non-trivial = cut between TopoWrite and the marker write; distinct by (mint count, cut position, interleaving)")
+	c.Require("cut-before-marker", "cut-after-marker", "second-mint", "ordinary-before-mint", "duplicate-finalization-before-marker")
+	kit.SetChecks(kit.N(24, 600))
 	net := vpKNewNet(7, "c21m", 2)
 	rapid.Check(t, func(t *rapid.T) {
 		dir := vpKTempDir("c21m")
@@ -270,6 +287,38 @@ func TestVP_C21_mint_marker(t *testing.T) {
 			lastMint = s
 			if mi > 0 {
 				c.Class("second-mint")
+			}
+			if mi == cutAt && cutBefore && rapid.Bool().Draw(t, "duplicate") {
+				// The same mint transaction finalized once more by another chain's
+				// snapshot before either chain recorded the operation (the finalization
+				// path does not refuse an already finalized member, and the reference
+				// check still sees the previous operation): the last snapshot in the
+				// store is then the duplicate, and it is a consensus snapshot as well.
+				clk += uint64(rapid.IntRange(1, 400).Draw(t, "dup_dt_ms")) * uint64(time.Millisecond)
+				di := 1 + rapid.IntRange(0, 5).Draw(t, "dup_chain")
+				dchain := k.Node.getOrCreateChain(net.NodeIds[di])
+				dnew := false
+				if cache := dchain.State.CacheRound; len(cache.Snapshots) > 0 {
+					start, _ := cache.Gap()
+					dnew = clk >= start+config.SnapshotRoundGap
+				}
+				d := k.NextSnapshot(di, []crypto.Hash{ver.PayloadHash()}, clk, dnew, (di+1)%7)
+				k.Certify(d, 0)
+				if dnew {
+					dc, _ := dchain.StateCopy()
+					if _, _, _, err := dchain.startNewRoundAndPersist(dc, d.References, d.Timestamp, true); err != nil {
+						t.Fatalf("round transition for the duplicate: %v", err)
+					}
+				}
+				dsigners, ok := dchain.verifyFinalization(d)
+				if !ok {
+					t.Fatalf("harness certificate rejected")
+				}
+				dc, df := dchain.StateCopy()
+				if err := dchain.AddSnapshot(df, dc, d, dsigners); err != nil {
+					t.Fatalf("AddSnapshot of the duplicate: %v", err)
+				}
+				c.Class("duplicate-finalization-before-marker")
 			}
 			if mi == cutAt && cutBefore {
 				c.Class("cut-before-marker")
